@@ -35,6 +35,17 @@ pub async fn run(op: &str, a: &[String]) -> Option<Vec<String>> {
 pub async fn wt_read_to_end(r: &mut RecvStream, rbuf: usize) -> (Vec<u8>, String) {
     let mut buf = vec![0u8; rbuf.max(1)];
     let mut out = Vec::new();
+    if rbuf == 13 {
+        // this buffer size goes through the stream's `tokio::io::AsyncRead` implementation
+        loop {
+            match bounded(tokio::io::AsyncReadExt::read(r, &mut buf)).await {
+                None => return (out, "timeout".into()),
+                Some(Ok(0)) => return (out, "eos".into()),
+                Some(Ok(k)) => out.extend_from_slice(&buf[..k]),
+                Some(Err(e)) => return (out, format!("io:{:?}", e.kind())),
+            }
+        }
+    }
     loop {
         match bounded(r.read(&mut buf)).await {
             None => return (out, "timeout".into()),
@@ -59,6 +70,28 @@ async fn wt_write(s: &mut SendStream, data: &[u8], wchunk: usize) -> Result<(), 
         };
     }
     for c in data.chunks(wchunk) {
+        if wchunk == 7 {
+            // this chunk size goes through `write` (partial writes honoured)
+            let mut off = 0;
+            while off < c.len() {
+                match bounded(s.write(&c[off..])).await {
+                    None => return Err("timeout".into()),
+                    Some(Ok(0)) => return Err("wrote_zero".into()),
+                    Some(Ok(n)) => off += n,
+                    Some(Err(e)) => return Err(canon::write_err(&e)),
+                }
+            }
+            continue;
+        }
+        if wchunk == 1000 {
+            // this chunk size goes through the stream's `tokio::io::AsyncWrite` implementation
+            match bounded(tokio::io::AsyncWriteExt::write_all(s, c)).await {
+                None => return Err("timeout".into()),
+                Some(Ok(())) => {}
+                Some(Err(e)) => return Err(format!("io:{:?}", e.kind())),
+            }
+            continue;
+        }
         match bounded(s.write_all(c)).await {
             None => return Err("timeout".into()),
             Some(Ok(())) => {}
